@@ -343,7 +343,12 @@ static int run_c14(int T, uint64_t seed, int rounds) {
     for (int i = 0; i < n; ++i) for (int j = 0; j <= i; ++j) (*S)(i, j) = 2.0 + i + j * 0.125;
     std::vector<Matrix> own(T); std::vector<SymmMatrix> owns(T);
     for (int k = 0; k < T; ++k) {
-      if (Soft) { own[k] >>= A->soft_link(); owns[k] >>= S->soft_link(); }
+      // soft links through a const reference too (the const overload is a separate function)
+      if (Soft) {
+        if (k % 2) { const Matrix sl = static_cast<const Matrix&>(*A).soft_link(); own[k] >>= const_cast<Matrix&>(sl); }
+        else own[k] >>= A->soft_link();
+        owns[k] >>= S->soft_link();
+      }
       else      { own[k] >>= *A;            owns[k] >>= *S; }
     }
     long links_before = A->storage()->n_links();
